@@ -39,8 +39,9 @@ RULE = (
     "Histories (engine H, stateless): ONE telemetry object, started in each of 5 ways (PusTm constructor, PusTm.unpack, from_composite_fields, "
     "Service17Tm constructor, Service17Tm.unpack - events then go to wrapper.pus_tm and pack() through the wrapper) from each of 4 backgrounds "
     "under each timestamp length, is driven through EVERY sequence of D events of the menu {pack(), pack(recalc_crc=False), calc_crc(), "
-    "to_space_packet(), construct+pack+view+decode (PusTm and Service17Tm) of an unrelated telemetry packet with a 5-octet timestamp, "
-    "apid= (2 values), seq_flags= (2), tm_data= (shorter, equal, longer)} = 12 events; a plain dict holds the values last set; after the start "
+    "to_space_packet(), construct+pack+view+decode (PusTm and Service17Tm) of an unrelated telemetry packet with a 5-octet timestamp, all "
+    "setters applied to a composed and a decoded twin carrying the same values, apid= (2 values), seq_flags= (2), tm_data= (shorter, equal, "
+    "longer, 300 octets)} = 14 events; a plain dict holds the values last set; after the start "
     "and after every event: every accessor, data length, packet_len, == (both directions) with a fresh telemetry object composed from the "
     "model's values; every octet string a reading event returns = ref/pus.py of the model; crc16 right after the events that calculate it; "
     "pack(recalc_crc=False) judged only while no setter ran since the last CRC calculation (its documented precondition). A history is "
@@ -54,11 +55,11 @@ BOUNDS = {
     "quick": "K=4; timestamp lengths {0,1,2,6,7,8,12,16}; triples crossed with lengths {0,7}; N=4096; reject seq count in edge(14); "
              "space-packet view + check_pus_crc on: every value of fields <= 11 bit, walk(n) and every 17th value of the 14/16-bit "
              "fields, covering arrays (index sum = 0 mod 4) of pairs/triples/4-value product, <=1-octet strings and 2-octet strings "
-             "with (b0+b1) mod 16 = 0, all shaped lengths, every 4th wrapper vector; histories: D=3 (1 728 per start), timestamp lengths {0,2,7} x 4 "
+             "with (b0+b1) mod 16 = 0, all shaped lengths, every 4th wrapper vector; histories: D=3 (2 744 per start), timestamp lengths {0,2,7} x 4 "
              "backgrounds x 5 start states = 60 starts; independence: all vector shards",
     "thorough": "K=8; timestamp lengths 0..32; triples crossed with {0,1,2,6,7,8,12,16}; N=65536; reject seq count in walk(14); "
-                "space-packet view + check_pus_crc on every vector; histories: D=4 (20 736 per start), timestamp lengths {0,1,2,6,7,8,12,16} x 4 backgrounds x 5 "
-                "start states = 160 starts; independence: all vector shards",
+                "space-packet view + check_pus_crc on every vector; histories: timestamp lengths {0,1,2,6,7,8,12,16} x 4 backgrounds x 5 start states = 160 "
+                "starts, D=4 (38 416 per start) from backgrounds 0-1 and D=3 from backgrounds 2-3; independence: all vector shards",
 }
 ASSUMPTIONS = [
     "ref/pus.py, ref/ccsds.py, ref/crc16.py transcribe ECSS-E-ST-70-41C / CCSDS 133.0-B-2 (bound to the repository's expected vectors by selftest/st_ref_pus.py)",
@@ -144,7 +145,7 @@ def shards(tier):
     for T in H_TS[tier]:
         for kk in range(H_K):
             for mode in H_MODES:
-                items.append({"kind": "history", "k": kk, "T": T, "mode": mode, "depth": h_depth(tier)})
+                items.append({"kind": "history", "k": kk, "T": T, "mode": mode, "depth": h_depth(tier) if kk < 2 else 3})
     pairs = list(itertools.combinations(range(8), 2))
     for chunk in D.chunks(pairs, 7 if tier == "quick" else 28):
         items.append({"kind": "tuples", "axes": [list(c) for c in chunk], "lens": ts_lengths(tier), "datas": [0, 1, 2], "all_deep": deep})
@@ -217,9 +218,10 @@ def short(b):
 
 
 def keep_obs(o):
-    """copying observation of a telemetry object held by the Keeper: every accessor and its octets"""
-    x = observe(o)
-    return x[:11] + x[12:14] + (bytes(o.pack()),)
+    """copying observation of a telemetry object held by the Keeper: plain attribute reads only (an observation that
+    called pack() would itself write whatever hidden state the library shares, and could repair what it is looking for);
+    the octets are held separately - the very bytearray pack() returned"""
+    return observe(o)
 
 
 KEEP_ROUTES = {"sweep": False, "ts-bytes": False, "data-bytes": False, "ts-lengths": True, "lengths": True, "tuples": True, "quad": True,
@@ -227,11 +229,13 @@ KEEP_ROUTES = {"sweep": False, "ts-bytes": False, "data-bytes": False, "ts-lengt
 
 
 def keep_hdr(h):
-    return (h.service, h.subservice, h.message_counter, h.dest_id, int(h.spacecraft_time_ref), bytes(h.timestamp), h.header_size, bytes(h.pack()))
+    return (h.service, h.subservice, h.message_counter, h.dest_id, int(h.spacecraft_time_ref), bytes(h.timestamp), h.header_size, int(h.pus_version))
 
 
 def keep_view(sp):
-    return bytes(sp.pack())
+    h = sp.sp_header
+    return (h.apid, h.seq_count, h.data_len, int(h.packet_type), int(h.seq_flags), h.ccsds_version, None if sp.sec_header is None else bytes(sp.sec_header),
+            None if sp.user_data is None else bytes(sp.user_data))
 
 
 def keep_depth(routes: bool, deep: bool) -> int:
@@ -412,7 +416,7 @@ def _srv17_script(rec: Rec, case, f, ts_spec, data_spec, nontrivial, deep, keepe
     except Exception as e:
         return bad("wrapper/Service17Tm.pack/exception/" + type(e).__name__, repr(e), short(ref))
     hold("Service17Tm.pack", raw_obj, bytes)
-    hold("Service17Tm()", w, lambda x: acc(x) + (bytes(x.pack()),))
+    hold("Service17Tm()", w, acc)
     if raw != ref:
         return bad("wrapper/Service17Tm.pack/octets/" + _region(raw, ref, T), short(raw), short(ref))
     if acc(w) != exp:
@@ -424,7 +428,7 @@ def _srv17_script(rec: Rec, case, f, ts_spec, data_spec, nontrivial, deep, keepe
     if acc(u) != exp:
         name = next(i for i, (a, b) in enumerate(zip(acc(u), exp)) if a != b)
         return bad("wrapper/Service17Tm.unpack/accessor#%d" % name, [short(x) for x in acc(u)], [short(x) for x in exp])
-    hold("Service17Tm.unpack", u, lambda x: acc(x) + (bytes(x.pack()),))
+    hold("Service17Tm.unpack", u, acc)
     if bytes(u.pack()) != ref:
         bad("wrapper/Service17Tm.unpack-then-pack/octets", short(bytes(u.pack())), short(ref))
     if not (u.pus_tm == w.pus_tm and w.pus_tm == _tm().PusTm.unpack(ref, T)):
@@ -586,9 +590,9 @@ def check_defaults(rec: Rec, ctor, k, T, mask, rnd, keeper=None):
 H_SET = {
     "apid": [0x7FF, 0x2AA],
     "seq_flags": [1, 2],  # FIRST_SEGMENT, LAST_SEGMENT: each of the two bits in the other polarity than UNSEGMENTED
-    "tm_data": [b"", b"\x5a", b"\x01\x02\x03\x04\x05"],  # shorter / as long as / longer than the start values' source data
+    "tm_data": [b"", b"\x5a", b"\x01\x02\x03\x04\x05", b"\xc3" * 300],  # shorter / as long as / longer than the start values' source data / > 255
 }
-H_READ = ["pack", "pack(recalc_crc=False)", "calc_crc", "to_space_packet", "decode-another"]
+H_READ = ["pack", "pack(recalc_crc=False)", "calc_crc", "to_space_packet", "decode-another", "setters-on-a-twin"]
 H_EVENTS = H_READ + ["%s=%d" % (k, i) for k in ("apid", "seq_flags", "tm_data") for i in range(len(H_SET[k]))]
 H_MODES = ["constructed", "decoded", "from_composite_fields", "Service17Tm()", "Service17Tm.unpack"]
 H_KEYS = ("service", "subservice", "timestamp", "source_data", "apid", "seq_count", "msg_counter", "time_ref", "dest_id", "version", "seq_flags")
@@ -758,6 +762,17 @@ def run_history(rec: Rec, k, T, mode, events, nontrivial=True):
                 if (bytes(x.pack()) != other_ref or bytes(y.pack()) != other_ref or bytes(z.pack()) != other_ref or bytes(y.to_space_packet().pack()) != other_ref
                         or h_pure(y, z) != h_expected(v)):
                     bad("another-telemetry/octets", short(bytes(y.pack())), short(other_ref))
+                name = None
+            elif ev == "setters-on-a-twin":
+                # two more telemetry objects with the SAME values (one composed, one decoded) are modified through every setter: this one must not follow
+                from spacepackets.ccsds.spacepacket import SequenceFlags
+
+                tw = dict(model, apid=model["apid"] ^ 0x155, seq_flags=model["seq_flags"] ^ 3, source_data=model["source_data"] + b"\x77")
+                for twin in (h_twin(m, model), m.PusTm.unpack(h_ref(model), T)):
+                    twin.apid, twin.seq_flags, twin.tm_data = tw["apid"], SequenceFlags(tw["seq_flags"]), tw["source_data"]
+                    out = bytes(twin.pack())
+                    if out != h_ref(tw):
+                        bad("twin-telemetry/octets/" + _region(out, h_ref(tw), T), short(out), short(h_ref(tw)))
                 name = None
             else:
                 field, idx = ev.split("=")
@@ -1011,7 +1026,7 @@ def finalize(tier, agg):
         "backgrounds": _k(tier),
         "deviation_bound": "d=1 full alphabets in K backgrounds; d=2, d=3 over edge alphabets; d=8 over the 4-value alphabets",
         "histories": {"depth": h_depth(tier), "event_menu": H_EVENTS, "start_states": H_MODES, "timestamp_lengths": H_TS[tier],
-                      "executed": c.get("histories_depth_%d" % h_depth(tier), 0), "states": c.get("history_states", 0),
+                      "executed": {"depth_3": c.get("histories_depth_3", 0), "depth_4": c.get("histories_depth_4", 0)}, "states": c.get("history_states", 0),
                       "transitions": c.get("history_events_applied", 0)},
         "independence": {"results_held": c.get("independence_results_held", 0), "reobservations": c.get("independence_reobservations", 0)},
         "observed_outcomes": sorted(agg["outcomes"])[:60],
